@@ -57,7 +57,7 @@ fn run_case(id: &str, origin: &str, vseed: u64, ctx: &mut Context, sys0: &Transi
     let d0 = dump_sys_dag(ctx, sys0);
     stats.bump("sys0_nodes", &crate::c18::bucket(d0.n_nodes as u64));
     let s1 = ser(ctx, sys0);
-    let mut line = format!("(case {id} (profile {prof}) (origin {}) (vseed {vseed}) (sys0 {}) (ser1 {})", quote(origin), d0.text, ser_field(&s1));
+    let mut line = format!("(case {id} (profile {prof}) (origin {}) (vseed {vseed}) (sys0 {} {}) (ser1 {})", quote(origin), d0.text, d0.signames, ser_field(&s1));
     match &s1 {
         Ser::Ok(text1) => {
             stats.bump("ser1", "ok");
@@ -315,6 +315,15 @@ fn build_sys_from_dag(ctx: &mut Context, f: &[Sexp]) -> TransitionSystem {
     }
     for c in sx.field("constraints").unwrap_or(&[]) {
         sys.constraints.push(g(c));
+    }
+    // debug names of intermediate nodes
+    if let Some(sn) = f.get(2) {
+        for it in sn.list().iter().skip(1) {
+            let l = it.list();
+            let e = refs[l[0].num() as usize];
+            let r = ctx.string(l[1].atom().to_string().into());
+            sys.names[e] = Some(r);
+        }
     }
     sys
 }
